@@ -101,8 +101,20 @@ package main
 
 // Helpers that only write to the generated file's buffer (g.P) and read
 // descriptor options; trusted to leave the descriptors alone.
-//@ trusted func wrapComments(g, elems)
+//@ func wrapComments(g, elems)
+//@   tags C17
+//@   requires g != nil
+//@   nosafety
 //@   assigns nothing
+//@   assert@call((*protogen.GeneratedFile).P): vcount(arg1) == 2 && vlit(arg1, 0, "// ")   // label: wrapped-text-is-emitted-as-line-comments-only
+//@   loop 1:
+//@     invariant text != nil && owned(text)
+//@   loop 2:
+//@     invariant text != nil && owned(text)
+//@ trusted func fmt.Fprint(w, a) (n, err)
+//@   requires w != nil
+//@   assigns view(w), out(w)
+//@   doc: "Fprint formats using the default formats for its operands and writes to w."
 //@ trusted func isDeprecatedService(service) res
 //@   assigns nothing
 //@ trusted func isDeprecatedMethod(method) res
@@ -175,7 +187,7 @@ package main
 //@   assigns nothing
 //@   assert@call((*protogen.GeneratedFile).P): vcount(arg1) == 1 && (vlit(arg1, 0, "//") || commentMarked(vstr(arg1, 0)))   // label: only-comment-marked-text-is-emitted
 
-//@ macro methodsOK(service ref) bool = service != nil && service.Desc != nil && (forall i int :: {service.Methods[i]} 0 <= i && i < len(service.Methods) ==> service.Methods[i] != nil && service.Methods[i].Parent == service && service.Methods[i].Desc != nil && service.Methods[i].Input != nil && service.Methods[i].Output != nil && len(service.Methods[i].GoName) >= 1 && service.Methods[i].GoName[0] < 128)
+//@ macro methodsOK(service ref) bool = service != nil && service.Desc != nil && len(service.GoName) >= 1 && service.GoName[0] < 128 && (forall i int :: {service.Methods[i]} 0 <= i && i < len(service.Methods) ==> service.Methods[i] != nil && service.Methods[i].Parent == service && service.Methods[i].Desc != nil && service.Methods[i].Input != nil && service.Methods[i].Output != nil && len(service.Methods[i].GoName) >= 1 && service.Methods[i].GoName[0] < 128)
 
 //@ func generateServerConstructor(g, service, names)
 //@   tags C17
@@ -217,13 +229,82 @@ package main
 //@   tags C17
 //@   requires g != nil
 //@   nosafety
-//@   assigns everything
+//@   assigns nothing
 //@   assert@call((*protogen.GeneratedFile).P): viaIdent(arg1)   // label: package-qualifiers-only-through-Ident
+// The names of the generated declarations of one service, and the five sections
+// generated for it - each for this service, with these names.
+//@ func newNames(service) res
+//@   tags C17
+//@   requires service != nil && len(service.GoName) >= 1 && service.GoName[0] < 128
+//@   assigns nothing
+//@   ensures res.Base == service.GoName && res.Client == service.GoName ++ "Client" && res.ClientConstructor == "New" ++ service.GoName ++ "Client"   // label: client-names
+//@   ensures res.Server == service.GoName ++ "Handler" && res.ServerConstructor == "New" ++ service.GoName ++ "Handler" && res.UnimplementedServer == "Unimplemented" ++ service.GoName ++ "Handler"   // label: handler-names
+//@ func generateService(g, file, service)
+//@   tags C17
+//@   requires g != nil && methodsOK(service)
+//@   assigns nothing
+//@   assert@call(generateClientInterface): arg0 == g && arg1 == service   // label: client-interface-of-this-service
+//@   assert@call(generateClientImplementation): arg0 == g && arg1 == service   // label: client-of-this-service
+//@   assert@call(generateServerInterface): arg0 == g && arg1 == service   // label: handler-interface-of-this-service
+//@   assert@call(generateServerConstructor): arg0 == g && arg1 == service   // label: handler-constructor-of-this-service
+//@   assert@call(generateUnimplementedServerImplementation): arg0 == g && arg1 == service   // label: unimplemented-handler-of-this-service
+// generate: a file without services produces no output at all; otherwise one
+// generated file, named after the input with the ".connect.go" extension, that
+// holds the sections of every service of the file (each under the assumption
+// methodsOK, which is what protogen builds from a valid descriptor - stated
+// here once, proved at every call below).
+// Pure library functions the generator computes names with (no side effects; their
+// results are not constrained).
+//@ trusted func filepath.ToSlash(path) res
+//@   assigns nothing
+//@   doc: "ToSlash returns the result of replacing each separator character in path with a slash."
+//@ trusted func filepath.Base(path) res
+//@   assigns nothing
+//@   doc: "Base returns the last element of path."
+//@ trusted func path.Join(elem) res
+//@   assigns nothing
+//@   doc: "Join joins any number of path elements into a single path."
+//@ trusted func path.Dir(path) res
+//@   assigns nothing
+//@   doc: "Dir returns all but the last element of path."
+//@ trusted func path.Base(path) res
+//@   assigns nothing
+//@   doc: "Base returns the last element of path."
+//@ trusted func (*descriptorpb.FileDescriptorProto).GetOptions(x) res
+//@   assigns nothing
+//@   doc: "generated getter"
+//@ trusted func (*descriptorpb.FileOptions).GetDeprecated(x) res
+//@   assigns nothing
+//@   doc: "generated getter"
+//@ trusted func protoreflect.FileDescriptor.Path(d) res
+//@   assigns nothing
+//@   doc: "Path returns the file name, relative to root of source tree."
+//@ trusted func protoreflect.ServiceDescriptor.Name(d) res
+//@   assigns nothing
+//@   doc: "Name returns the short name of the declaration."
+//@ macro servicesOK(file ref) bool = file != nil && (forall i int :: {file.Services[i]} 0 <= i && i < len(file.Services) ==> methodsOK(file.Services[i]))
+//@ trusted func (*protogen.Plugin).NewGeneratedFile(p, filename, goImportPath) res
+//@   assigns nothing
+//@   ensures res != nil
+//@   doc: "NewGeneratedFile creates a new generated file with the given filename and import path."
+// Determinism of the generator: the emitted text is a function of the request
+// (and of the binary's own name, printed in the header) because nothing in
+// package main iterates over a map, consults the clock, a random source or the
+// environment, or runs concurrently (mechanical scan of the SSA of the package).
+//@ deterministic main by generate
+//@ func generate(plugin, file)
+//@   tags C17
+//@   requires plugin != nil && servicesOK(file)
+//@   nosafety
+//@   assigns file.GoPackageName, file.GeneratedFilenamePrefix
+//@   assert@call((*protogen.Plugin).NewGeneratedFile): len(file.Services) > 0   // label: a-file-without-services-produces-no-output
+//@   assert@call((*protogen.Plugin).NewGeneratedFile): arg1 == file.GeneratedFilenamePrefix ++ ".connect.go"   // label: the-output-is-named-.connect.go
+//@   assert@call(generateService): arg0 == callres("(*protogen.Plugin).NewGeneratedFile", 1) && arg1 == file   // label: every-service-goes-into-the-one-generated-file
 //@ func generateServiceNameConstants(g, services)
 //@   tags C17
 //@   requires g != nil
 //@   nosafety
-//@   assigns everything
+//@   assigns nothing
 //@   assert@call((*protogen.GeneratedFile).P): viaIdent(arg1)   // label: package-qualifiers-only-through-Ident
 //@   loop 1:
 //@     invariant true
